@@ -24,6 +24,17 @@ class FakeGateway:
         if self in self._group:
             self._group._unregister(self)
 
+    def join(self, timeout=None):
+        pass
+
+
+class _FakeIO:
+    def wait(self):
+        return 0
+
+    def kill(self):
+        pass
+
 
 def run_group(program, chooser, line_level=("allocate_id", "_register", "makegateway", "_unregister", "__contains__", "__getitem__")):
     s = Sched(chooser, max_steps=8000, post_yields=True)
@@ -47,7 +58,7 @@ def run_group(program, chooser, line_level=("allocate_id", "_register", "makegat
             raise OSError("injected: cannot start the process")
         started[0] += 1
         mine_started[s.me().name] = True
-        return object()
+        return _FakeIO()
 
     def fake_bootstrap(io, spec):
         s.yield_(("bootstrap", spec.id))
@@ -106,6 +117,26 @@ def run_group(program, chooser, line_level=("allocate_id", "_register", "makegat
                             raise
                         failing.discard(name)
                         snap("ret", "makegateway", name, spec.id or op[1], "Injected" if "injected" in str(e) else type(e).__name__, op[1] is None)
+                elif op[0] == "alloc":  # the public allocate_id(): an automatic id is reserved for a spec that is used later (or never)
+                    spec = XSpec("popen")
+                    snap("call", "allocate", name, None, "", True)
+                    try:
+                        group.allocate_id(spec)
+                        snap("ret", "allocate", name, spec.id, "ok", True)
+                    except BaseException as e:  # noqa: BLE001
+                        if type(e).__name__ == "SimAbort":
+                            raise
+                        snap("ret", "allocate", name, spec.id, type(e).__name__, True)
+                elif op[0] == "terminate":
+                    snap("call", "terminate", name, None, "", False)
+                    try:
+                        group.terminate(timeout=None)
+                        del mine[:]
+                        snap("ret", "terminate", name, None, "ok", False)
+                    except BaseException as e:  # noqa: BLE001
+                        if type(e).__name__ == "SimAbort":
+                            raise
+                        snap("ret", "terminate", name, None, type(e).__name__, False)
                 elif op[0] == "exit" and mine:
                     gw = mine.pop(0)
                     gone.append(gw)
